@@ -472,6 +472,18 @@ class Interp:
             if len(a.elems) != len(b.elems):
                 acc = self.and_(acc, self.wrapb(na <= min(len(a.elems), len(b.elems))))
             return acc
+        if isinstance(a, PDict) and isinstance(b, PDict):
+            if len(a.entries) != len(b.entries):
+                return False
+            acc = True
+            for k, v in a.entries:
+                i = self.dict_find(b, k)
+                if i is None:
+                    return False
+                acc = self.and_(acc, self.equal(v, b.entries[i][1]))
+                if acc is False:
+                    return False
+            return acc
         if isinstance(a, PSet) and isinstance(b, PSet):
             if len(a.elems) != len(b.elems):
                 # duplicates cannot occur inside a PSet, so sizes must agree
@@ -2065,7 +2077,9 @@ class Interp:
     def e_GeneratorExp(self, e, fr):
         out = []
         self.comp(e.generators, 0, fr, lambda f2: out.append(self.eval(e.elt, f2)))
-        return PList(self, out)   # eager (side-effect-free element expressions in the code analysed)
+        # elements are computed eagerly (the element expressions of the code analysed are
+        # side-effect free) but the result is a one-shot iterator, like a real generator
+        return GenObj(iter(out))
 
     def e_DictComp(self, e, fr):
         d = PDict(self)
